@@ -429,6 +429,10 @@ func runC06(w *W) {
 			c.guarded("Value.GetByPath", len(b), func() {
 				v := generic.NewValue(c.desc, b)
 				for _, f := range c.rootT.St.Fields {
+					// name-addressed as well: that lookup has a search of its own
+					if gn := v.GetByPath(generic.NewPathFieldName(f.Name)); !gn.IsError() {
+						gn.Raw()
+					}
 					g := v.GetByPath(generic.NewPathFieldId(thrift.FieldID(f.ID)))
 					if !g.IsError() {
 						g.Raw()
@@ -479,8 +483,31 @@ func runC06(w *W) {
 								g.String()
 							}
 						case tLIST, tSET:
+							// elements by index (first, second, a far one) and the accessor of the element type: an
+							// announced count is no proof that the elements are there
 							g.Len()
-							g.Index(0)
+							for _, i := range []int{0, 1, 5, 1000} {
+								e := g.Index(i)
+								if e.IsError() {
+									continue
+								}
+								switch f.T.Elem.Kind {
+								case tBOOL:
+									e.Bool()
+								case tBYTE, tI16, tI32, tI64:
+									e.Int()
+								case tDOUBLE:
+									e.Float64()
+								case tSTRING:
+									if f.T.Elem.Binary {
+										e.Binary()
+									} else {
+										e.String()
+									}
+								default:
+									e.Raw()
+								}
+							}
 						case tMAP:
 							g.Len()
 							g.Raw()
